@@ -503,7 +503,7 @@ func (s *Store) saveFile(fp *os.File, expected ocispec.Descriptor, content io.Re
 
 // pushFile saves content matching the descriptor to the target path.
 func (s *Store) pushFile(target string, expected ocispec.Descriptor, content io.Reader) error {
-	if err := ensureDir(filepath.Dir(target)); err != nil {
+	if err := s.ensureWriteDir(filepath.Dir(target)); err != nil {
 		return fmt.Errorf("failed to ensure directories of the target path: %w", err)
 	}
 
@@ -517,7 +517,7 @@ func (s *Store) pushFile(target string, expected ocispec.Descriptor, content io.
 
 // pushDir saves content matching the descriptor to the target directory.
 func (s *Store) pushDir(name, target string, expected ocispec.Descriptor, content io.Reader) (err error) {
-	if err := ensureDir(target); err != nil {
+	if err := s.ensureWriteDir(target); err != nil {
 		return fmt.Errorf("failed to ensure directories of the target path: %w", err)
 	}
 
@@ -722,4 +722,67 @@ func (s *Store) setClosed() {
 // ensureDir ensures the directories of the path exists.
 func ensureDir(path string) error {
 	return os.MkdirAll(path, 0777)
+}
+
+// ensureWriteDir ensures the directories of the path to write exists.
+// Unless path traversal is allowed, the directories below the working
+// directory are not reached through symbolic links: names are validated
+// lexically, and a symbolic link (for instance one unpacked from an archive)
+// may lead outside of the working directory.
+func (s *Store) ensureWriteDir(path string) error {
+	if s.AllowPathTraversalOnWrite {
+		return ensureDir(path)
+	}
+	return ensureDirNoSymlink(s.workingDir, path, 0777)
+}
+
+// ensureDirNoSymlink creates the directory target and its missing parents
+// below the directory base like os.MkdirAll, but does not follow symbolic
+// links: every existing path element of target below base must be a directory.
+func ensureDirNoSymlink(base, target string, perm os.FileMode) error {
+	rel, err := filepath.Rel(base, target)
+	if err != nil {
+		return err
+	}
+	rel = filepath.ToSlash(rel)
+	if rel == ".." || strings.HasPrefix(rel, "../") {
+		// target is not below base (it is the parent of base)
+		return os.MkdirAll(target, perm)
+	}
+	if err := os.MkdirAll(base, perm); err != nil {
+		return err
+	}
+	cur := base
+	for _, elem := range strings.Split(rel, "/") {
+		if elem == "." {
+			continue
+		}
+		cur = filepath.Join(cur, elem)
+		info, err := os.Lstat(cur)
+		switch {
+		case err == nil && info.IsDir():
+			// existing directory
+		case err == nil && info.Mode()&os.ModeSymlink != 0:
+			return fmt.Errorf("%w: %s is a symbolic link", ErrPathTraversalDisallowed, cur)
+		case err == nil:
+			return fmt.Errorf("%s is not a directory", cur)
+		case os.IsNotExist(err):
+			if err := os.Mkdir(cur, perm); err != nil {
+				// a concurrent push may have created it in the meantime
+				info, lerr := os.Lstat(cur)
+				if !os.IsExist(err) || lerr != nil {
+					return err
+				}
+				if info.Mode()&os.ModeSymlink != 0 {
+					return fmt.Errorf("%w: %s is a symbolic link", ErrPathTraversalDisallowed, cur)
+				}
+				if !info.IsDir() {
+					return fmt.Errorf("%s is not a directory", cur)
+				}
+			}
+		default:
+			return err
+		}
+	}
+	return nil
 }
